@@ -30,12 +30,12 @@ def run(ctx):
                   [["id", "a", "b"], [], ["r2", "1", "x"]], "c07_w.csv"))
     jobs = []
     for pr, rows, fname in progs:
-        for m in (0, 1, 2):
+        for m in (0, 1, 2, 6):
             jobs.append({"text": pr["text"].replace(fname, f"m{m}_" + fname), "rows": rows, "fname": f"m{m}_" + fname, "method": m, "k": 0, "policy": ["collect", "print"]})
     res = pmap(ctx, runloop.real_run, jobs, chunksize=8)
     fails, nexts_jobs, nontrivial = [], [], set()
     for pi, (pr, rows, fname) in enumerate(progs):
-        a, b, f = res[3 * pi], res[3 * pi + 1], res[3 * pi + 2]
+        a, b, f, kept = res[4 * pi], res[4 * pi + 1], res[4 * pi + 2], res[4 * pi + 3]
         if a["exc"] or b["exc"] or f["exc"]:
             if not (a["exc"] and b["exc"] and f["exc"]) or len({a["exc"], b["exc"], f["exc"]}) != 1:
                 fails.append({"kind": "exception in one entry point only", "csvpath": pr["text"], "rows": rows,
@@ -44,6 +44,9 @@ def run(ctx):
         if a["lines"] != b["lines"]:
             fails.append({"kind": "collect() and next() return different lines", "csvpath": pr["text"], "rows": rows,
                           "collect": a["lines"], "next": b["lines"]})
+        elif kept["exc"] != b["exc"] or kept["lines"] != b["lines"] or obs_key(kept) != obs_key(b):
+            fails.append({"kind": "the lines kept from list(next()) are not the lines next() yielded one by one (collect() returns those)", "csvpath": pr["text"], "rows": rows,
+                          "collect": a["lines"], "list_of_next": kept["exc"] or kept["lines"]})
         elif not (obs_key(a) == obs_key(b) == obs_key(f)):
             fails.append({"kind": "entry points leave different state", "csvpath": pr["text"], "rows": rows,
                           "collect": obs_key(a), "next": obs_key(b), "fast_forward": obs_key(f)})
@@ -58,7 +61,7 @@ def run(ctx):
                     nexts_jobs.append((pi, {"text": pr["text"].replace(fname, f"n{m}_{k}_" + fname), "rows": rows, "fname": f"n{m}_{k}_" + fname, "method": m, "k": k, "policy": ["collect", "print"]}))
     nres = pmap(ctx, runloop.real_run, [j for _, j in nexts_jobs], chunksize=8)
     for (pi, job), o in zip(nexts_jobs, nres):
-        a = res[3 * pi]
+        a = res[4 * pi]
         if o["exc"]:
             fails.append({"kind": "collect(nexts) raised", "csvpath": job["text"], "rows": job["rows"], "k": job["k"], "exc": o["exc"]})
             continue
@@ -124,7 +127,7 @@ def replay(ctx, payload):
     c = payload.get("case") or payload.get("disagreeing_case", {}).get("job")
     text = c.get("csvpath") or c.get("text")
     rows = c["rows"]
-    for m, name in ((0, "collect"), (1, "next"), (2, "fast_forward")):
+    for m, name in ((0, "collect"), (1, "next"), (6, "list(next())"), (2, "fast_forward")):
         o = runloop.real_run({"text": text, "rows": rows, "fname": text.split("[")[0].split("$")[-1], "method": m, "k": 0, "policy": ["collect", "print"]})
         print(name, "->", o.get("exc") or (o["lines"], obs_key(o)))
     return 0
